@@ -27,6 +27,7 @@ import (
 
 	"gorm.io/gorm"
 	"gorm.io/gorm/clause"
+	"gorm.io/gorm/logger"
 	"pgregory.net/rapid"
 
 	"verif/internal/evid"
@@ -135,6 +136,7 @@ type hookPlan struct {
 	failAt   int // -1: no hook fails
 	cancelAt int // -1: no hook cancels the context of the operation
 	cancel   context.CancelFunc
+	auditVia string // "" = tx.Exec, "session" = Create through a NewDB+SkipDefaultTransaction session of tx
 	audit    bool
 	rec      *recdrv.Recorder
 	log      []hookCall
@@ -169,7 +171,13 @@ func hook(tx *gorm.DB, model, name string) error {
 		return nil
 	}
 	if p.audit && model == "Owner" {
-		if err := tx.Exec("INSERT INTO audits (msg) VALUES (?)", model+"."+name).Error; err != nil {
+		if p.auditVia == "session" {
+			// a clean session of the handle the hook got, without a transaction
+			// of its own (the hook already runs inside the operation's)
+			if err := tx.Session(&gorm.Session{NewDB: true, SkipDefaultTransaction: true}).Create(&Audit{Msg: model + "." + name}).Error; err != nil {
+				return err
+			}
+		} else if err := tx.Exec("INSERT INTO audits (msg) VALUES (?)", model+"."+name).Error; err != nil {
 			return err
 		}
 	}
@@ -364,6 +372,9 @@ type Op struct {
 	Kind        string      `json:"kind"`
 	NoReturning bool        `json:"noreturning,omitempty"` // dialector without RETURNING support
 	Audit       bool        `json:"audit,omitempty"`       // Owner hooks write an audit row through their handle
+	AuditVia    string      `json:"auditvia,omitempty"`    // "session": the audit row is created through tx.Session(NewDB+SkipDefaultTransaction)
+	Returning   bool        `json:"returning,omitempty"`   // update/delete/save with Clauses(clause.Returning{}): the main statement runs as a query
+	Pre         []PreStep   `json:"pre,omitempty"`         // sessions derived from the handle (and maybe used for a read) before the operation
 	Ctx         bool        `json:"ctx,omitempty"`         // run on db.WithContext(cancellable context); hooks may cancel it
 	Collide     bool        `json:"collide,omitempty"`     // the last record carries the unique code of an existing owner: the operation fails by itself
 	Rot         int         `json:"rot,omitempty"`         // rotation of the injected error values over the fault positions
@@ -376,6 +387,58 @@ type Op struct {
 	NewName     string      `json:"newname,omitempty"`
 	NewVal      int         `json:"newval,omitempty"`
 	Owners      []OwnerSpec `json:"owners,omitempty"`
+}
+
+// PreStep derives a session from the default handle before the operation runs
+// on that handle. Deriving (and reading through) a session must not change the
+// handle: the operation on it stays all-or-nothing.
+type PreStep struct {
+	Opt string `json:"opt"`
+	Use bool   `json:"use,omitempty"`
+}
+
+var sessionOptions = map[string]func() *gorm.Session{
+	"NewDB":                        func() *gorm.Session { return &gorm.Session{NewDB: true} },
+	"SkipDefaultTransaction":       func() *gorm.Session { return &gorm.Session{SkipDefaultTransaction: true} },
+	"NewDB+SkipDefaultTransaction": func() *gorm.Session { return &gorm.Session{NewDB: true, SkipDefaultTransaction: true} },
+	"NewDB+SkipDefaultTransaction+SkipHooks": func() *gorm.Session {
+		return &gorm.Session{NewDB: true, SkipDefaultTransaction: true, SkipHooks: true}
+	},
+	"DryRun":                         func() *gorm.Session { return &gorm.Session{DryRun: true} },
+	"NewDB+DryRun":                   func() *gorm.Session { return &gorm.Session{NewDB: true, DryRun: true} },
+	"PrepareStmt":                    func() *gorm.Session { return &gorm.Session{PrepareStmt: true} },
+	"NewDB+PrepareStmt":              func() *gorm.Session { return &gorm.Session{NewDB: true, PrepareStmt: true} },
+	"SkipHooks":                      func() *gorm.Session { return &gorm.Session{SkipHooks: true} },
+	"NewDB+SkipHooks":                func() *gorm.Session { return &gorm.Session{NewDB: true, SkipHooks: true} },
+	"DisableNestedTransaction":       func() *gorm.Session { return &gorm.Session{DisableNestedTransaction: true} },
+	"NewDB+DisableNestedTransaction": func() *gorm.Session { return &gorm.Session{NewDB: true, DisableNestedTransaction: true} },
+	"AllowGlobalUpdate":              func() *gorm.Session { return &gorm.Session{AllowGlobalUpdate: true} },
+	"NewDB+AllowGlobalUpdate":        func() *gorm.Session { return &gorm.Session{NewDB: true, AllowGlobalUpdate: true} },
+	"FullSaveAssociations":           func() *gorm.Session { return &gorm.Session{FullSaveAssociations: true} },
+	"NewDB+FullSaveAssociations":     func() *gorm.Session { return &gorm.Session{NewDB: true, FullSaveAssociations: true} },
+	"PropagateUnscoped":              func() *gorm.Session { return &gorm.Session{PropagateUnscoped: true} },
+	"NewDB+PropagateUnscoped":        func() *gorm.Session { return &gorm.Session{NewDB: true, PropagateUnscoped: true} },
+	"QueryFields":                    func() *gorm.Session { return &gorm.Session{QueryFields: true} },
+	"NewDB+QueryFields":              func() *gorm.Session { return &gorm.Session{NewDB: true, QueryFields: true} },
+	"CreateBatchSize":                func() *gorm.Session { return &gorm.Session{CreateBatchSize: 1} },
+	"NewDB+CreateBatchSize":          func() *gorm.Session { return &gorm.Session{NewDB: true, CreateBatchSize: 1} },
+	"Context":                        func() *gorm.Session { return &gorm.Session{Context: context.Background()} },
+	"NewDB+Context":                  func() *gorm.Session { return &gorm.Session{NewDB: true, Context: context.Background()} },
+	"Logger":                         func() *gorm.Session { return &gorm.Session{Logger: logger.Discard} },
+	"NewDB+Logger":                   func() *gorm.Session { return &gorm.Session{NewDB: true, Logger: logger.Discard} },
+	"NowFunc":                        func() *gorm.Session { return &gorm.Session{NowFunc: func() time.Time { return initNow }} },
+	"NewDB+NowFunc":                  func() *gorm.Session { return &gorm.Session{NewDB: true, NowFunc: func() time.Time { return initNow }} },
+	"Initialized":                    func() *gorm.Session { return &gorm.Session{Initialized: true} },
+	"NewDB+Initialized":              func() *gorm.Session { return &gorm.Session{NewDB: true, Initialized: true} },
+}
+
+func sessionOptionNames() []string {
+	out := make([]string, 0, len(sessionOptions))
+	for k := range sessionOptions {
+		out = append(out, k)
+	}
+	sort.Strings(out)
+	return out
 }
 
 // Case is what one rapid iteration generates.
@@ -422,6 +485,9 @@ func ownerPtrs(specs []OwnerSpec) []*Owner {
 
 // exec runs the operation on db with a freshly built record graph.
 func (op Op) exec(db *gorm.DB) *gorm.DB {
+	if op.Returning {
+		db = db.Clauses(clause.Returning{})
+	}
 	switch op.Kind {
 	case kCreate:
 		return db.Create(op.Owners[0].build())
@@ -665,9 +731,9 @@ func freshDB(base *content, op Op) *testdb.DB {
 // ---- one run -----------------------------------------------------------------------------------
 
 type fault struct {
-	kind string // "" | "driver" | "hook" | "cancel"
+	kind string // "" | "driver" | "next" | "hook" | "cancel"
 	idx  int
-	err  namedErr // driver: the value the failing call returns
+	err  namedErr // driver, next: the value the failing call returns
 }
 
 func (f fault) String() string {
@@ -678,6 +744,8 @@ func (f fault) String() string {
 		return fmt.Sprintf("hook#%d returns error", f.idx)
 	case "cancel":
 		return fmt.Sprintf("hook#%d cancels the context and returns nil", f.idx)
+	case "next":
+		return fmt.Sprintf("rows.Next#%d returns %s", f.idx, f.err.name)
 	}
 	return "none"
 }
@@ -715,6 +783,13 @@ var commitOnlyErrors = []namedErr{
 	{"wrapped(driver.ErrBadConn)", fmt.Errorf("c05 driver: %w", driver.ErrBadConn)},
 }
 
+// nextCall is one driver.Rows.Next call: the statement whose rows are read and
+// the number of faultable driver calls made before it.
+type nextCall struct {
+	query     string
+	drvBefore int
+}
+
 type runResult struct {
 	err       error
 	rows      int64
@@ -722,6 +797,7 @@ type runResult struct {
 	dumpErr   error
 	faultable int
 	hooks     []hookCall
+	nexts     []nextCall
 	events    []recdrv.Event
 	openTx    int
 	inUse     int
@@ -731,7 +807,16 @@ type runResult struct {
 func runOnce(base *content, op Op, f fault) runResult {
 	d := freshDB(base, op)
 	defer d.Close()
-	p := &hookPlan{failAt: -1, cancelAt: -1, audit: op.Audit, rec: d.Rec}
+	// history before the operation: sessions derived from the default handle
+	for _, ps := range op.Pre {
+		s := d.DB.Session(sessionOptions[ps.Opt]())
+		if ps.Use {
+			var n int64
+			s.Model(&Owner{}).Count(&n)
+		}
+	}
+	d.Rec.Reset()
+	p := &hookPlan{failAt: -1, cancelAt: -1, audit: op.Audit, auditVia: op.AuditVia, rec: d.Rec}
 	switch f.kind {
 	case "hook":
 		p.failAt = f.idx
@@ -751,8 +836,20 @@ func runOnce(base *content, op Op, f fault) runResult {
 	} else {
 		d.Rec.SetFault(nil)
 	}
+	var r runResult
+	d.Rec.TrackRows(true)
+	d.Rec.SetRowsFault(func(idx int, query string) error {
+		r.nexts = append(r.nexts, nextCall{query, d.Rec.Faultable()})
+		if f.kind == "next" && idx == f.idx {
+			r.fired = true
+			return f.err.err
+		}
+		return nil
+	})
 	res := op.exec(handle)
 	plan = nil
+	d.Rec.SetRowsFault(nil)
+	d.Rec.TrackRows(false)
 	if f.kind == "cancel" {
 		// the background rollback of database/sql releases the connection
 		// shortly after the transaction is marked finished
@@ -760,7 +857,6 @@ func runOnce(base *content, op Op, f fault) runResult {
 			time.Sleep(20 * time.Microsecond)
 		}
 	}
-	var r runResult
 	r.err, r.rows = res.Error, res.RowsAffected
 	r.faultable = d.Rec.Faultable()
 	r.events = d.Rec.Events()
@@ -768,7 +864,7 @@ func runOnce(base *content, op Op, f fault) runResult {
 	d.Rec.SetFault(nil)
 	r.openTx = d.Rec.OpenTx()
 	r.inUse = d.SQL.Stats().InUse
-	r.fired = p.fired
+	r.fired = r.fired || p.fired
 	if f.kind == "driver" {
 		for _, e := range r.events {
 			if e.Err == f.err.err {
@@ -865,6 +961,9 @@ func checkCase(t fataler, c Case, base *content) {
 		t.Fatalf("C05 violated: after the fault-free operation %d transaction(s) open, %d connection(s) checked out\n  case: %s\n  driver calls:\n%s", ref.openTx, ref.inUse, desc, eventLog(ref.events))
 	}
 	if ref.dump == base.text {
+		if len(op.Pre) > 0 {
+			t.Fatalf("C05 violated: the fault-free operation reported success but changed nothing, after sessions %v were derived from the handle (the same operation without them applies)\n  case: %s\n  driver calls:\n%s", op.Pre, desc, eventLog(ref.events))
+		}
 		t.Fatalf("harness: vacuous case, the fault-free operation changed nothing\n  case: %s", desc)
 	}
 	fe := faultableEvents(ref.events)
@@ -930,6 +1029,17 @@ func checkCase(t fataler, c Case, base *content) {
 			verify(f, r, v.err, multi && firstWrite >= 0 && k > firstWrite, "drv:"+labels[k], "err:"+v.name)
 		}
 	}
+	// lazily reported statement failures: the j-th Rows.Next of the operation
+	// (rows of INSERT/UPDATE/DELETE ... RETURNING) fails, which the caller of
+	// the driver sees only through rows.Err()
+	evid.AddExtra("rows_next_faults", int64(len(ref.nexts)))
+	for j := 0; j < len(ref.nexts) && familyOn("next"); j++ {
+		v := faultErrors[(j+op.Rot+3)%len(faultErrors)]
+		f := fault{kind: "next", idx: j, err: v}
+		r := runOnce(base, op, f)
+		l, _, _ := stmtLabel(recdrv.Event{Kind: recdrv.Query, Text: ref.nexts[j].query})
+		verify(f, r, v.err, multi && firstWrite >= 0 && ref.nexts[j].drvBefore-1 > firstWrite, "next:"+l, "err:"+v.name)
+	}
 	for h := 0; h < H && familyOn("hook"); h++ {
 		f := fault{kind: "hook", idx: h}
 		r := runOnce(base, op, f)
@@ -988,6 +1098,18 @@ func opShapes(op Op, multi bool) []string {
 	}
 	if op.Ctx {
 		shape["handle:with-context"] = true
+	}
+	if op.AuditVia != "" {
+		shape["hooks:audit-via-derived-session"] = true
+	}
+	if op.Returning {
+		shape["clause:returning"] = true
+	}
+	for _, ps := range op.Pre {
+		shape["pre:session:"+ps.Opt] = true
+		if ps.Use {
+			shape["pre:session-used"] = true
+		}
 	}
 	if op.Kind == kDelete {
 		if len(op.Select) == 0 {
@@ -1305,7 +1427,17 @@ func drawCase(t *rapid.T) (Case, *content) {
 	op := Op{Kind: kind}
 	op.NoReturning = rapid.IntRange(0, 3).Draw(t, "no-returning") == 0
 	op.Audit = rapid.IntRange(0, 3).Draw(t, "audit") == 0
+	if op.Audit && rapid.Bool().Draw(t, "audit-via-session") {
+		op.AuditVia = "session"
+	}
 	op.Ctx = rapid.IntRange(0, 2).Draw(t, "with-context") == 0
+	switch kind {
+	case kSave, kSaveMissing, kUpdatesFull, kUpdatesMap, kUpdateCol, kDelete:
+		op.Returning = rapid.Bool().Draw(t, "returning")
+	}
+	for i, n := 0, rapid.SampledFrom([]int{0, 0, 1, 1, 2}).Draw(t, "pre-sessions"); i < n; i++ {
+		op.Pre = append(op.Pre, PreStep{Opt: rapid.SampledFrom(sessionOptionNames()).Draw(t, "pre-session"), Use: rapid.Bool().Draw(t, "pre-session-use")})
+	}
 	op.Rot = rapid.IntRange(0, len(faultErrors)-1).Draw(t, "error-rotation")
 	switch kind {
 	case kCreate:
@@ -1339,7 +1471,7 @@ func drawCase(t *rapid.T) (Case, *content) {
 		// key set, no such row, no associations, hooks do not write: Save's
 		// UPDATE matches nothing (and changes nothing), then the insert fallback
 		// runs as a second pipeline
-		op.Audit = false
+		op.Audit, op.AuditVia = false, ""
 		op.Owners = []OwnerSpec{{ID: 900, Name: "ow-" + nameGen.Draw(t, "owner-name"), Val: rapid.IntRange(1, 9).Draw(t, "val")}}
 	case kSaveSlice:
 		n := rapid.IntRange(1, 3).Draw(t, "owners")
@@ -1409,6 +1541,8 @@ const rule = "C05: rapid draws an initial database (0-3 owner graphs, loose comp
 	"The value a failing driver call returns rotates over {sentinel, sql.ErrTxDone, context.Canceled, context.DeadlineExceeded, io.ErrUnexpectedEOF, sql.ErrNoRows, gorm.ErrRecordNotFound and fmt.Errorf wrappers}; every COMMIT is tried with every value plus driver.ErrBadConn. " +
 	"Operations on a db.WithContext handle additionally run once per hook invocation with that hook cancelling the context and returning nil (outcome must be stored+nil or nothing stored+error). " +
 	"One case in five of the eligible kinds fails by itself instead (unique-index collision of the last record, no fault injected; must report the constraint error and apply nothing). " +
+	"With RETURNING (dialect default for inserts; Clauses(clause.Returning{}) on half of the save/update/delete operations) every driver.Rows.Next of the operation is failed in turn too (a statement failing while it is executed lazily, visible only through rows.Err()). " +
+	"Before the operation 0-2 sessions with a drawn option set (every field of gorm.Session, with and without NewDB) are derived from the default handle and half of them used for a read; audit-writing hooks may write through tx.Session(NewDB+SkipDefaultTransaction). " +
 	"One evaluation = one faulted run. Non-trivial = the operation writes >=2 tables and the fault lands after the first write statement succeeded. " +
 	"Distinct = initial content + operation + record graph + fault position."
 
